@@ -434,14 +434,15 @@ fn mem_exec(p: P, keys: &Keys) -> ExecEnd {
                 }
                 sh.lock().expect("sh").live -= 1;
                 sim::log_event(t, "drop ctx");
-                drop(ctx);
+                sim::drop_or_leak(ctx);
             }
+            sim::drop_or_leak((client, writer));
         }));
     }
     for h in hs {
         let _ = h.join();
     }
-    drop(state);
+    sim::drop_or_leak(state);
     let (sealed, setups_ok, refused) = {
         let mut s = sh.lock().expect("sh");
         (std::mem::take(&mut s.sealed), s.setups_ok, s.setups_refused)
@@ -489,8 +490,8 @@ impl Check for C40 {
 
     fn budget(&self, tier: vcommon::Tier) -> (u64, usize) {
         match tier {
-            vcommon::Tier::Quick => (640, 40),
-            vcommon::Tier::Thorough => (6400, 40),
+            vcommon::Tier::Quick => (1000, 80),
+            vcommon::Tier::Thorough => (10000, 80),
         }
     }
 
